@@ -12,6 +12,15 @@ BASE_NOTE = (
 
 # property -> (category, text, technique, design_ref, extra note)
 CLAIMS = {
+    "C20": (
+        "proof",
+        "Span.line_col and LiquidError._error_context are verified total and correct for every position inside the source (loop invariant: cumulative length == total length of the lines seen so far, over the assumed splitlines partition): "
+        "the returned line/column locate the index inside its line and no ValueError is possible. The expression tokenizer's loop body is verified for every match kind: each emitted token and each error token carries start_index == parent offset + match offset and the template's source. "
+        "That every Token(...) built by the three tokenizers takes its offset from a match offset is a structural obligation. That parsed nodes keep the token of the reported name is checked by a bounded sweep over every span reported for 19 templates and every error raised for malformed sources (position inside source, str(err) succeeds).",
+        "contract-based deductive verification (loop invariant with a prefix-sum ghost function; lexer loop body over an abstract match record) + structural obligations + bounded contract check",
+        "DESIGN.md section 4 C20",
+        "",
+    ),
     "C10": (
         "proof",
         "The body of the template lexer's loop (the real AST of _tokenize_template, executed in place as an eagerly collected generator) is verified branch by branch against an abstract match record (kind, group texts, offsets; optional-hyphen groups are '' or '-'): "
